@@ -254,9 +254,45 @@ pub(crate) mod verif_timer {
         latest
     }
 
+    /// A timer that was expired by check_expirations() and is then DROPPED without being polled again (a timeout that lost
+    /// a select! race), while another timer stays registered. Two timers, straight line. C15: next_expiration() afterwards is
+    /// the other deadline and that timer still expires; C01: the heap holds exactly the live registered futures, no panic.
+    pub fn expired_drop_scenario<S: Src>(s: &mut S, p: u32) -> u32 {
+        CLOCK.0.store(0, Ordering::Relaxed);
+        let svc = GenericTimerService::<NoopLock>::new(&CLOCK);
+        let (c0, c1) = (WakeCell::new(), WakeCell::new());
+        let d0 = 1 + s.below(2) as u64;          // 1..2
+        let d1 = d0 + 1 + s.below(2) as u64;     // later than d0
+        let mut f0 = ManuallyDrop::new(LocalTimer::deadline(&svc, d0));
+        let mut f1 = ManuallyDrop::new(LocalTimer::deadline(&svc, d1));
+        let w0 = ManuallyDrop::new(mk_waker(&c0));
+        let w1 = ManuallyDrop::new(mk_waker(&c1));
+        let order = s.flag(); // registration order
+        if order {
+            let _ = { let mut cx = Context::from_waker(&w1); unsafe { Pin::new_unchecked(&mut *f1) }.poll(&mut cx) };
+            let _ = { let mut cx = Context::from_waker(&w0); unsafe { Pin::new_unchecked(&mut *f0) }.poll(&mut cx) };
+        } else {
+            let _ = { let mut cx = Context::from_waker(&w0); unsafe { Pin::new_unchecked(&mut *f0) }.poll(&mut cx) };
+            let _ = { let mut cx = Context::from_waker(&w1); unsafe { Pin::new_unchecked(&mut *f1) }.poll(&mut cx) };
+        }
+        CLOCK.0.store(d0, Ordering::Relaxed);
+        svc.check_expirations();
+        oracle!(p, P15, c0.n() == 1 && c1.n() == 0, "C15 timer: check_expirations() did not wake exactly the due timer");
+        // the expired future is dropped unpolled
+        unsafe { ManuallyDrop::drop(&mut f0) };
+        oracle!(p, P15, svc.next_expiration() == Some(d1), "C15 timer: next_expiration() differs from the remaining registered deadline after an expired, unpolled future was dropped");
+        oracle!(p, P01, svc.next_expiration() == Some(d1), "C01 timer: the timer queue lost a live registered future when an expired, unpolled future was dropped");
+        // (a second check_expirations() for the remaining timer makes the query 5x more expensive; that the remaining timer
+        // is still in the heap is what next_expiration() just showed)
+        unsafe { ManuallyDrop::drop(&mut f1) };
+        s.reached(order as u32);
+        order as u32
+    }
+
     #[no_mangle]
     pub fn fi_verif_replay_timer(name: &str, cfg: u32, p: u32, s: &mut ScriptSrc<'_>) -> bool {
         match name {
+            "timer_expired_drop" => { expired_drop_scenario::<_>(s, p); }
             "timer_facade" => { facade_scenario::<_>(s, p); }
             "timer_hist_noop" => { hist::<NoopLock, _>(s, cfg, 64, p); }
             "timer_hist_check" => { hist::<CheckLock, _>(s, cfg, 64, p); }
@@ -524,6 +560,12 @@ pub(crate) mod verif_timer {
             let svc = GenericTimerService::<NoopLock>::new(&CLOCK);
             repoll_after_ready(LocalTimer::deadline(&svc, 0));
         }
+        #[kani::proof]
+        #[kani::unwind(4)]
+        fn expired_drop_c15() { let _ = expired_drop_scenario(&mut KaniSrc, P15); }
+        #[kani::proof]
+        #[kani::unwind(4)]
+        fn expired_drop_c01() { let _ = expired_drop_scenario(&mut KaniSrc, P01); }
         #[kani::proof]
         #[kani::unwind(3)]
         fn facade_c15() { let n = facade_scenario(&mut KaniSrc, P15); kani::cover!(n == 1, "W timer facade: woken once"); }
